@@ -135,9 +135,23 @@ func runCase(c *Ctx, prop string, ac appCase, nontrivialKeys []string) {
 	}
 	ic := w.Start(dbm.NewMemDB())
 	c.Res.Cases++
+	if ic.Panic != "" && w.Cfg.Defect != "" {
+		// a deliberately inconsistent genesis was refused: nothing to judge
+		c.Res.count("genesis_refused."+w.Cfg.Defect, 1)
+		return
+	}
 	if ic.Panic != "" {
+		if prop == "C05" {
+			// a consistent genesis: InitChain has to deliver the first validator set
+			w.Env.Violate("C05", "initchain-panics/"+panicClassOf(ic.Panic), fmt.Sprintf("InitChain panicked on a consistent genesis: %s", firstLine(ic.Panic)), ic)
+			foldEnv(c, prop, ac.ID, ac.Prof.Name, w.Env, nontrivialKeys)
+			return
+		}
 		c.Res.Inconcl = append(c.Res.Inconcl, fmt.Sprintf("case %s: InitChain panicked: %s", ac.ID, firstLine(ic.Panic)))
 		return
+	}
+	if w.Cfg.Defect != "" {
+		c.Res.count("genesis_accepted_despite."+w.Cfg.Defect, 1)
 	}
 	if ac.Scenario != nil {
 		ac.Scenario(w)
@@ -354,7 +368,9 @@ func profileFor(prop string, r *sim.Rand, i int, quick bool) sim.Profile {
 	switch prop {
 	case "C01", "C11":
 		if i%4 == 1 {
-			p.BlockMaxGas = []int64{150000, 400000, 60000}[i/4%3] // a block gas limit that the busier blocks reach
+			// a block gas limit that the busier blocks reach; the two large ones are never reached by a block, only by
+			// gas that is (wrongly) carried over from earlier blocks or from read-only traffic
+			p.BlockMaxGas = []int64{150000, 400000, 60000, 8000000, 30000000}[i/4%5]
 		}
 		p.Trace = prop == "C11" && i%4 == 2
 	}
@@ -363,6 +379,7 @@ func profileFor(prop string, r *sim.Rand, i int, quick bool) sim.Profile {
 		// genesis states as exported from a running chain: validators in jail, validators that are unstaking
 		p.RichGenesis = i%8 == 4
 		p.ImpliedSupply = (prop == "C01" || prop == "C02") && i%8 == 5
+		p.HugeGenesisStake = i%16 == 4 && prop != "C01"
 		p.ExportedGenesis = i%16 == 12
 	}
 	switch prop {
@@ -494,7 +511,11 @@ func profileFor0(prop string, r *sim.Rand, i int, quick bool) sim.Profile {
 		if !quick {
 			p.Blocks = 200
 		}
-		switch r.Intn(5) {
+		switch r.Intn(7) {
+		case 5:
+			p.Pruning = &[2]int64{0, 0} // "prune everything", stated through the application's option
+		case 6:
+			p.Pruning = &[2]int64{0, 4}
 		case 0:
 			p.Pruning = &[2]int64{0, 1}
 		case 1:
@@ -537,7 +558,7 @@ func appRun(prop string, nontrivial []string) func(c *Ctx) {
 				continue
 			}
 			p := profileFor(prop, r, i, c.Quick())
-			ac := appCase{ID: fmt.Sprintf("h%d", i), Seed: r.U64(), Prof: p, CrossProcess: i%4 == 0 && !raceSlice()}
+			ac := appCase{ID: fmt.Sprintf("h%d", i), Seed: r.U64(), Prof: p, CrossProcess: (i%4 == 0 || (prop == "C01" && p.BlockMaxGas >= 8000000)) && !raceSlice()}
 			if sc, tweak := scenarioFor(prop, i, r); sc != nil {
 				tweak(&ac.Prof)
 				ac.Scenario = sc
@@ -545,7 +566,47 @@ func appRun(prop string, nontrivial []string) func(c *Ctx) {
 			}
 			runCase(c, prop, ac, nontrivial)
 		}
+		switch prop {
+		case "C02", "C04", "C05", "C06", "C09":
+			// deliberately inconsistent genesis files: InitChain refuses them, or the chain it starts is judged like any other
+			defects := []string{"validator-twice", "cons-key-twice", "staked-and-jailed", "stake-at-minimum", "unstaking-below-minimum"}
+			extra := len(defects)
+			if !c.Quick() {
+				extra = 6 * len(defects)
+			}
+			if raceSlice() {
+				extra = 0
+			}
+			for j := 0; j < extra; j++ {
+				r := master.Split(uint64(1000000 + j))
+				if !c.Mine(n+j) || osGetenv("VCHECK_ONLY_CASE") != "" && osGetenv("VCHECK_ONLY_CASE") != fmt.Sprint(n+j) {
+					continue
+				}
+				p := profileFor(prop, r, 8*(j/len(defects)), c.Quick()) // the plain profile family
+				p.OddGenesis = defects[j%len(defects)]
+				p.RichGenesis, p.ExportedGenesis = false, false
+				p.Blocks = 25
+				p.Name += "+odd-genesis:" + p.OddGenesis
+				runCase(c, prop, appCase{ID: fmt.Sprintf("og%d", j), Seed: r.U64(), Prof: p}, nontrivial)
+			}
+		}
 	}
+}
+
+// panicClassOf: the panic message without numbers and hex (a stable signature component).
+func panicClassOf(p string) string {
+	s := firstLine(p)
+	out := make([]byte, 0, len(s))
+	for i := 0; i < len(s) && len(out) < 40; i++ {
+		ch := s[i]
+		switch {
+		case ch >= 'a' && ch <= 'z', ch >= 'A' && ch <= 'Z':
+			out = append(out, ch)
+		case ch == ' ' && len(out) > 0 && out[len(out)-1] != '-':
+			out = append(out, '-')
+		}
+	}
+	return string(out)
 }
 
 func hashStr(s string) uint64 {
